@@ -188,7 +188,13 @@ func (x *Exec) validDenom(d StrV) *smt.Term {
 	if d.Atom == nil {
 		return x.nfaMatch(reDenom.String(), d.Bytes)
 	}
-	return x.B.App("valid_sdk_denom", smt.SBool, d.Atom)
+	t := x.B.App("valid_sdk_denom", smt.SBool, d.Atom)
+	if !x.lenAxiom[t.ID] {
+		x.lenAxiom[t.ID] = true
+		l := x.atomLen(d.Atom)
+		x.Assume(x.B.Implies(t, x.B.And(x.B.Le(x.B.Int(3), l), x.B.Le(l, x.B.Int(128)))), "a valid denom has 3..128 characters")
+	}
+	return t
 }
 
 func registerSDK(p *Program) {
